@@ -9,7 +9,7 @@ CORE_NOTE = ("trusted: TLC, archive/tar as independent tape reader, a second SQL
 
 CHECKS = {
     "C01": dict(cat="model_checking", design="7/C01", technique="TLA+ spec (STFS.tla: C01_RebuildEq) model-checked with TLC; TLC-generated behaviours replayed on the real filesystem, running view vs rebuilt-from-tape vs reopened compared after every call",
-                text="TLC proves on the bounded design that the live index always equals a replay of the tape from scratch; every TLC-generated call history is executed on the real code under seeded concretisations (names, contents, pipeline configurations, record sizes) and after every call the running instance is compared field by field (names, kinds, sizes, modes, owners, mtimes, link targets, content hashes) with an index rebuilt from the tape alone and with a fresh process over the same index. Histories include batched Operations.Archive and Operations.Update(replace) calls with 1-2 members; symbolic links are known finding K05 (a witness history is replayed on every run)."),
+                text="Histories contain process restarts (index kept, or lost and rebuilt by Initialize) after which the following calls run on that index. TLC proves on the bounded design that the live index always equals a replay of the tape from scratch; every TLC-generated call history is executed on the real code under seeded concretisations (names, contents, pipeline configurations, record sizes) and after every call the running instance is compared field by field (names, kinds, sizes, modes, owners, mtimes, link targets, content hashes) with an index rebuilt from the tape alone and with a fresh process over the same index. Histories include batched Operations.Archive and Operations.Update(replace) calls with 1-2 members; symbolic links are known finding K05 (a witness history is replayed on every run)."),
     "C02": dict(cat="model_checking", design="7/C02", technique="TLA+ reference filesystem (RefFS.tla) + STFS.tla refinement invariant C02_RefEq checked by TLC; generated behaviours replayed, outcome and whole tree compared with the reference after every call",
                 text="Histories include file handles that stay open across other calls (HOpen/HWrite/HSync/HClose for two handles, interleaved with renames, removals, chmods and rewrites of the handle's path): STFS.tla states the code's write-back handle design and MC_STFS_handles.cfg checks all invariants with a handle open; where that design departs from an ordinary filesystem is known finding K06a-c, shown by a fixed witness. The reference filesystem is part of the specification; TLC checks that the modelled index always shows exactly the reference tree and that failed calls change nothing. Each generated behaviour carries the reference's outcome and tree after every call; the real filesystem must succeed/fail exactly alike, show exactly that tree (kinds, byte contents, permissions/owners/mtimes set by calls) and leave tape and index untouched on failure."),
     "C04": dict(cat="model_checking", design="7/C04", technique="TLA+ (Tape.tla Pos, STFS.tla C04_Positions/C04_Last) checked by TLC; replay compares every live row's (record, block) with an independent tar scan and fetches at the position",
